@@ -108,13 +108,18 @@ GEN_DEFAULTS = {
     "QL": "128", "Peers": "GenPeers2", "NumPlayers": "2", "Window": "2", "Sparse": "FALSE",
     "PredDefault": "FALSE", "DesyncInterval": "0", "Fps": "60", "Timeout": "2000", "Notify": "500",
     "Values": "GenValues", "MaxFrame": "8", "LinkCap": "2", "DupBudget": "1", "ClockSteps": "NoClock",
-    "MaxClock": "1000000", "PreSynced": "TRUE", "InboxCap": "2", "Mortal": "{}", "EagerNet": "FALSE", "DelayValues": "{}", "VaryAll": "TRUE",
+    "MaxClock": "1000000", "PreSynced": "TRUE", "InboxCap": "2", "Mortal": "{}", "MaxBehind": "10", "Catchup": "1", "EagerNet": "FALSE", "DelayValues": "{}", "VaryAll": "TRUE",
     "Granular": "TRUE",
     "MaxSteps": "80",
 }
 GEN_SUBST = {"Peers", "Values", "ClockSteps"}
 
 GEN_PEERS = {
+    "GenPeers1s": (1, [{"kind": "p2p", "locals": [0], "delay": 0, "host": 0},
+                       {"kind": "spec", "locals": [], "delay": 0, "host": 0}]),
+    "GenPeers2s": (2, [{"kind": "p2p", "locals": [0], "delay": 0, "host": 0},
+                       {"kind": "p2p", "locals": [1], "delay": 0, "host": 0},
+                       {"kind": "spec", "locals": [], "delay": 0, "host": 1}]),
     "GenPeers2": (2, [{"kind": "p2p", "locals": [0], "delay": 0, "host": 0},
                       {"kind": "p2p", "locals": [1], "delay": 0, "host": 0}]),
     "GenPeers2d": (2, [{"kind": "p2p", "locals": [0], "delay": 1, "host": 0},
@@ -177,7 +182,8 @@ def scenario_of(consts):
         "predictor": "default" if consts["PredDefault"] == "TRUE" else "repeat",
         "desync": int(consts["DesyncInterval"]), "fps": int(consts["Fps"]),
         "timeout": int(consts["Timeout"]), "notify": int(consts["Notify"]),
-        "max_behind": 10, "catchup": 1, "max_delay": 8, "peers": peers,
+        "max_behind": int(consts.get("MaxBehind", 10)), "catchup": int(consts.get("Catchup", 1)),
+        "max_delay": 8, "peers": peers,
     }
 
 
@@ -266,7 +272,7 @@ del SYS_DEFAULTS["MaxSteps"]
 
 
 def mc_system(res, wd, name, over, workers=12, timeout=900, invariants=("NoViolation", "NoPanic"),
-              overrides=None, expect_violation=False):
+              overrides=None, expect_violation=False, memqueue=False):
     """Exhaustive TLC run of System.tla with the given constants.  Returns (held, out)."""
     consts = dict(SYS_DEFAULTS)
     consts.update({k: str(v) for k, v in over.items()})
@@ -280,7 +286,8 @@ def mc_system(res, wd, name, over, workers=12, timeout=900, invariants=("NoViola
             f.write(txt)
     tracep = os.path.join(wd, "mc_%s_cex.json" % name)
     rc, out = core.tlc(os.path.join(core.SPEC, "MC_Sys.tla"), cfgp, os.path.join(wd, "md_mc_" + name),
-                       workers=workers, timeout=timeout, xmx="10g", extra=["-dumpTrace", "json", tracep])
+                       workers=workers, timeout=timeout, xmx="10g", extra=["-dumpTrace", "json", tracep],
+                       dfs=memqueue)
     gen, dist = core.parse_tlc_stats(out)
     violated = ("is violated" in out)
     if rc != 0 and not violated:
